@@ -1158,7 +1158,18 @@ pub fn run_history(ctx: &mut Ctx, src: &mut Source, seed: u64) -> Option<History
             let acked = committed_before.clone();
             let ckpt = after_checkpoint || matches!(op, Op::Checkpoint | Op::PragmaCheckpoint | Op::CloseReopen);
             let so = since_open.join("+");
-            verify_images(ctx, images, step_idx, op, &acked, &accept, in_txn_before, first_ordinal, ckpt, &so);
+            // The image taken when the call has returned (kind B): if the statement succeeded and no
+            // transaction is open afterwards, its effect is acknowledged, so only the state after it
+            // is acceptable there. All other images: acknowledged-before, or that plus the unit.
+            let strict_boundary = effect_applied && actual.is_ok() && !model.in_txn(s);
+            if strict_boundary {
+                let (bimgs, rest): (Vec<Image>, Vec<Image>) = images.into_iter().partition(|i| i.point.kind == 'B');
+                verify_images(ctx, rest, step_idx, op, &acked, &accept, in_txn_before, first_ordinal, ckpt, &so);
+                let post = model.committed.clone();
+                verify_images(ctx, bimgs, step_idx, op, &post, &[], false, first_ordinal, ckpt, &so);
+            } else {
+                verify_images(ctx, images, step_idx, op, &acked, &accept, in_txn_before, first_ordinal, ckpt, &so);
+            }
         }
         let _ = crash_profile;
 
